@@ -58,6 +58,29 @@ struct SpecIStream {
     if (take < want) { eofbit = true; failbit = true; }
     return *this;
   }
+  // unformatted single-character input ([istream.unformatted]): no character available sets eofbit|failbit
+  // and returns traits::eof(); otherwise traits::to_int_type(c), i.e. the byte as a non-negative int
+  using traits_type = std::char_traits<char>;
+  using int_type = int;
+  int get() {
+    if (Fault()) return -1;
+    if (!good()) { failbit = true; return -1; }
+    if (pos < len) { const int c = static_cast<int>(src[pos]); pos += 1; return c; }
+    eofbit = true; failbit = true;
+    return -1;
+  }
+  SpecIStream& get(char& c) {
+    const int v = get();
+    if (v != -1) c = static_cast<char>(v);
+    return *this;
+  }
+  int peek() {
+    if (Fault()) return -1;
+    if (!good()) return -1;
+    if (pos < len) return static_cast<int>(src[pos]);
+    eofbit = true;
+    return -1;
+  }
   SpecIStream& seekg(std::streamoff off, std::ios_base::seekdir) {
     if (Fault()) return *this;
     eofbit = false;
@@ -142,6 +165,11 @@ struct SpecIStream {
   bool bad() { return s().bad(); }
   std::size_t cons = 0;
   SpecIStream& read(char* p, std::streamsize n) { s().read(p, n); cons += static_cast<std::size_t>(s().gcount()); return *this; }
+  using traits_type = std::char_traits<char>;
+  using int_type = int;
+  int get() { const int c = s().get(); cons += static_cast<std::size_t>(s().gcount()); return c; }
+  SpecIStream& get(char& c) { s().get(c); cons += static_cast<std::size_t>(s().gcount()); return *this; }
+  int peek() { return s().peek(); }
   SpecIStream& seekg(std::streamoff off, std::ios_base::seekdir d) {
     const bool was_ok = !s().fail();
     s().seekg(off, d);
